@@ -94,6 +94,8 @@ def lowlink(facts):
                 fs = [x[1] for x in leaves(e) if x[0] == "field" and x[1] in ("low", "disc", "parent")]
                 return sorted(set(fs))
             a0, a1 = arr(e0), arr(e1)
+            if a0 != ["low"] and a1 == ["low"]:
+                a0, a1 = a1, a0         # min is symmetric
             if a0 != ["low"]:
                 continue
             n += 1
